@@ -19,6 +19,10 @@
               (layer "service": readLocalCommitted computes the caps).
      Sync     internal/infra/cluster ChannelMessageReader.SyncMessages over the service layer
               (readCommittedRequest, SyncOnce filter, EndSeq filter, page cut).
+     Head     pkg/cluster/channels Service.ReadConversationHead (readLocalConversationHead +
+              readLastOrdinaryCommitted): newest ordinary row under the live committed watermark.
+     Last     pkg/cluster/channels Service.ReadChannelLastVisible (readLocalLastVisible; exported,
+              no caller left inside the repository).
 
    `match` is a partial function: match[f] = 0 means the leader knows no progress of f
    (machine.ChannelState.Progress has no entry; entries are created by the first
@@ -44,7 +48,8 @@ CONSTANTS
   ReadMaxs,         \* MaxSeq values tried by service-layer forward reads (0 = unset, 99 = MaxUint64)
   SyncStarts,       \* StartSeq values tried by SyncMessages
   SyncEnds,         \* EndSeq values tried by SyncMessages
-  CapZeroUnbounded  \* TRUE: the code's behaviour when the committed cap is 0 (finding); FALSE: intended
+  CapZeroUnbounded, \* TRUE: the code's behaviour when the committed cap is 0 (finding); FALSE: intended
+  LastUncapped      \* TRUE: the code's ReadChannelLastVisible (no committed cap; finding); FALSE: intended
 
 VARIABLES
   cfg,      \* [store, isr, minISR] of this instance
@@ -188,29 +193,46 @@ StoreRev(from, mn, mx, lim) ==
 \* pkg/cluster/channels readLocalCommitted: floor and committed cap computed by the caller.
 Floor == Max2(metaRet, local)
 Cap   == IF cfg.minISR <= 1 THEN leo ELSE ckpt
-Svc(from, mx, lim, rev) ==
+\* unb = TRUE is what the code does when the cap is 0 (MaxSeq 0 reaches the store, which reads
+\* it as "no cap": known finding); unb = FALSE is the intended behaviour (nothing is visible).
+SvcU(from, mx, lim, rev, unb) ==
   LET mn  == Floor + 1
       mx1 == IF mx = 0 \/ mx > Cap THEN Cap ELSE mx
-  IN IF Cap = 0 /\ ~CapZeroUnbounded THEN <<>>          \* nothing is committed: nothing is visible
+  IN IF Cap = 0 /\ ~unb THEN <<>>
      ELSE IF ~rev THEN IF from > Cap THEN <<>> ELSE StoreFwd(from, mn, mx1, lim)
      ELSE StoreRev(IF from > Cap THEN Cap ELSE from, mn, mx1, lim)
+Svc(from, mx, lim, rev) == SvcU(from, mx, lim, rev, CapZeroUnbounded)
 
 \* internal/infra/cluster message_reader.go
-SyncRead(mode, start, end, lim) ==
+SyncReadU(mode, start, end, lim, unb) ==
   LET rev  == mode = "down" \/ (start = 0 /\ end = 0)
       mx0  == IF mode = "up" /\ end > 0 THEN end - 1
               ELSE IF mode = "down" /\ start > 0 THEN start ELSE Inf
       from == IF rev /\ start = 0 THEN Inf ELSE IF ~rev /\ start = 0 THEN 1 ELSE start
       mx   == IF rev /\ start = 0 THEN Inf ELSE mx0
-      rd   == Svc(from, mx, lim + 1, rev)
+      rd   == SvcU(from, mx, lim + 1, rev, unb)
       vis  == SelectSeq(rd, LAMBDA s : s \notin bar)
       flt  == IF end = 0 THEN vis
               ELSE IF mode = "down" THEN SelectSeq(vis, LAMBDA s : s > end)
               ELSE SelectSeq(vis, LAMBDA s : s < end)
       cut  == First(flt, lim)
   IN IF rev THEN Reverse(cut) ELSE cut
+SyncRead(mode, start, end, lim) == SyncReadU(mode, start, end, lim, CapZeroUnbounded)
 
 Bars(q) == SelectSeq(q, LAMBDA s : s \in bar)
+
+\* readLocalConversationHead: committed = store LEO (MinISR <= 1) or max(checkpoint, live HW).
+HeadCap == IF cfg.minISR <= 1 THEN leo ELSE Max2(ckpt, hw)
+Newest(S) == [found |-> S # {}, seq |-> MaxOf(S)]
+HeadRead == Newest({s \in present \ bar : s > Floor /\ s <= HeadCap})
+
+\* ReadChannelLastVisible.  Intended: as Head, above the caller's own floor as well.  The code
+\* (known finding) looks only at the newest durable row: no committed cap, no SyncOnce filter,
+\* no store-adopted boundary.
+LastIntended(after) == Newest({s \in present \ bar : s > Max2(after, Floor) /\ s <= HeadCap})
+LastCode(after) ==
+  LET r == MaxOf(present) IN
+  IF r > Max2(after, metaRet) THEN [found |-> TRUE, seq |-> r] ELSE [found |-> FALSE, seq |-> 0]
 
 \* layer "store": the caller passes MinSeq = retention + 1 and MaxSeq = hw explicitly.
 ReadStore(from, lim, rev) ==
@@ -226,13 +248,27 @@ ReadStore(from, lim, rev) ==
 ReadSvc(from, mx, lim, rev) ==
   /\ rev => from >= 1 /\ mx \in {from, Inf}
   /\ LET q == Svc(from, mx, lim, rev)
+         u == SvcU(from, mx, lim, rev, TRUE)
      IN ev' = [a |-> "Read", layer |-> "service", from |-> from, mn |-> 0, mx |-> mx, lim |-> lim, rev |-> rev,
-               res |-> [seqs |-> q, bars |-> Bars(q)]]
+               res |-> [seqs |-> q, bars |-> Bars(q)],
+               alt |-> [seqs |-> u, bars |-> Bars(u)]]       \* the known deviation at cap 0 (= res otherwise)
   /\ UNCHANGED <<cfg, present, bar, leo, lprog, hw, ckpt, match, ret, metaRet, local, phys>>
 
 Sync(mode, start, end, lim) ==
   /\ ev' = [a |-> "Sync", mode |-> mode, start |-> start, end |-> end, lim |-> lim,
-            res |-> [seqs |-> SyncRead(mode, start, end, lim)]]
+            res |-> [seqs |-> SyncRead(mode, start, end, lim)],
+            alt |-> [seqs |-> SyncReadU(mode, start, end, lim, TRUE)]]
+  /\ UNCHANGED <<cfg, present, bar, leo, lprog, hw, ckpt, match, ret, metaRet, local, phys>>
+
+HeadMsg ==
+  /\ ev' = [a |-> "Head", res |-> [found |-> HeadRead.found, seq |-> HeadRead.seq,
+                                   committed |-> HeadCap, retention |-> Floor]]
+  /\ UNCHANGED <<cfg, present, bar, leo, lprog, hw, ckpt, match, ret, metaRet, local, phys>>
+
+LastVis(after) ==
+  /\ ev' = [a |-> "Last", after |-> after,
+            res |-> IF LastUncapped THEN LastCode(after) ELSE LastIntended(after),
+            alt |-> LastCode(after)]
   /\ UNCHANGED <<cfg, present, bar, leo, lprog, hw, ckpt, match, ret, metaRet, local, phys>>
 
 -------------------------------------------------------------------------------
@@ -246,7 +282,10 @@ NReadSvc   == \E from \in ReadFroms, lim \in Limits, rev \in BOOLEAN :
 NSync      == \E mode \in {"up", "down"}, start \in SyncStarts, end \in SyncEnds, lim \in Limits :
                  Sync(mode, start, end, lim)
 
-Next == NAppend \/ NAck \/ NMeta \/ NApply \/ NReadStore \/ NReadSvc \/ NSync
+NHead      == HeadMsg
+NLast      == \E after \in SyncStarts : LastVis(after)
+
+Next == NAppend \/ NAck \/ NMeta \/ NApply \/ NReadStore \/ NReadSvc \/ NSync \/ NHead \/ NLast
 
 Spec == Init /\ [][Next]_vars
 
@@ -268,7 +307,8 @@ TypeOK ==
 \* The logical boundary below which nothing may be returned: every boundary the channel knows.
 LogicalRet == Max2(ret, Max2(metaRet, local))
 
-Returned == IF ev.a \in {"Read", "Sync"} THEN {ev.res.seqs[i] : i \in DOMAIN ev.res.seqs} ELSE {}
+Returned == IF ev.a \in {"Read", "Sync"} THEN {ev.res.seqs[i] : i \in DOMAIN ev.res.seqs}
+            ELSE IF ev.a \in {"Head", "Last"} /\ ev.res.found THEN {ev.res.seq} ELSE {}
 
 \* Reads never return a row above the committed watermark or at/below the retention boundary;
 \* the ordinary-message reader never returns a barrier / SyncOnce row.
@@ -276,7 +316,7 @@ C10_ReadWindow ==
   [][ev'.a # "Init" => \A s \in Returned' :
         /\ s > LogicalRet /\ s <= hw
         /\ s \in present
-        /\ ev'.a = "Sync" => s \notin bar]_vars
+        /\ ev'.a \in {"Sync", "Head", "Last"} => s \notin bar]_vars
 
 \* No boundary ever moves backwards, whatever is requested.
 C10_Monotone ==
